@@ -85,6 +85,9 @@ def run_case(case, name):
 
     rec = {"trace": [], "outs": [], "ntfs": [], "snaps": [], "notes": [], "log": []}
     prog = case["prog"]
+    lcmds = case.get("lcmds", [])                 # commands issued from listeners
+    lcount = [0] * len(lcmds)
+    tls = threading.local()
     slow_ms = case.get("slow_handler_ms", 0)      # each handler takes that long (keeps a free-running model slow)
     lock = threading.Lock()
 
@@ -197,6 +200,28 @@ def run_case(case, name):
                 rec["log"].append(["ntf", nm, q, "w" if on_worker_thread() else "m"])
             if gates:
                 gate_point("ntf", nm)
+            if lcmds and not getattr(tls, "busy", False):
+                # commands issued from inside a listener (on whichever thread delivers the notification),
+                # only in the states the case asks for
+                for li, lc in enumerate(lcmds):
+                    if lc["ntf"] != nm or lcount[li] >= lc.get("max", 3):
+                        continue
+                    if lc.get("when_rs") and sim.run_state.name not in lc["when_rs"]:
+                        continue
+                    if lc.get("when_ps") and sim.replication_state.name not in lc["when_ps"]:
+                        continue
+                    lcount[li] += 1
+                    tls.busy = True
+                    try:
+                        before = [sim.run_state.name, sim.replication_state.name, to_q(sim.simulator_time),
+                                  sim.eventlist().size(), len(rec["ntfs"])]
+                        r = issue(lc["cmd"])
+                        after = [sim.run_state.name, sim.replication_state.name, to_q(sim.simulator_time),
+                                 sim.eventlist().size(), len(rec["ntfs"])]
+                    finally:
+                        tls.busy = False
+                    with lock:
+                        rec["log"].append(["lcmd", lc["cmd"], r, before, after, nm, "w" if on_worker_thread() else "m"])
 
     coll = Collector()
 
@@ -301,8 +326,10 @@ def run_case(case, name):
         sn = [r, sim.run_state.name, sim.replication_state.name, to_q(sim.simulator_time),
               sim.eventlist().size(), live, None if quiet is None else bool(quiet)]
         rec["snaps"].append(sn)
+        first = sim.eventlist().peek_first()
         with lock:
             rec["log"].append(["cmd", c] + sn)
+            rec["log"].append(["pmin", None if first is None else to_q(first.time)])
 
     rapid = bool(case.get("rapid"))
 
